@@ -28,7 +28,7 @@ def ident(n):
     return (type(n).__name__, n.full_path)
 
 
-def run_identity(root, nest_at=()):
+def run_identity(root, nest_at=(), nest_mode='ok'):
     """Returns (log, result, leftover stacks). log: list of (node ident, {k: ident | [ident]}), nested runs logged apart."""
     from rogw.tranp.semantics.procedure import Procedure
     proc = Procedure()
@@ -36,8 +36,18 @@ def run_identity(root, nest_at=()):
     counter = [0]
     depth = [0]
 
+    other = Procedure()   # a second procedure (as Reflections / Py2Cpp each own one): nested runs may go to it
+
+    def other_handler(node, **kwargs):
+        if nest_mode.endswith('raise'):
+            raise RuntimeError('failure inside the nested run')
+        return node
+    other.on('on_fallback', other_handler)
+
     def handler(node, **kwargs):
         if depth[0] > 0:
+            if nest_mode.endswith('raise'):
+                raise RuntimeError('failure inside the nested run')
             return node
         i = counter[0]
         counter[0] += 1
@@ -59,8 +69,12 @@ def run_identity(root, nest_at=()):
             if target is not None:
                 depth[0] += 1
                 try:
-                    r = proc.exec(target)
+                    r = (other if nest_mode.startswith('other') else proc).exec(target)
                     nested_log.append((ident(target), ident(r)))
+                except Exception:  # noqa  -- the handler deals with the failure of its nested run and carries on
+                    if not nest_mode.endswith('raise'):
+                        raise
+                    nested_log.append((ident(target), ident(target)))
                 finally:
                     depth[0] -= 1
         return node
@@ -123,18 +137,19 @@ def judge_tree(root, label, text, max_nest, nest_cap):
         combos = [(p,) for p in positions]
         if max_nest >= 2 and n <= 40:
             combos += [(p, q) for p in positions for q in positions if p < q]
-        for nest in combos:
+        modes = ['ok', 'raise', 'other-ok', 'other-raise']
+        for nest, mode in [(n_, m_) for n_ in combos for m_ in (modes if len(n_) == 1 else modes[:2])]:
             runs += 1
             try:
-                log2, result2, stacks2, nested = run_identity(root, nest)
+                log2, result2, stacks2, nested = run_identity(root, nest, mode)
             except Exception as e:  # noqa
-                add(['nested-raises', type(e).__name__, f'nest={len(nest)}'], f'nested exec at {nest} raised {type(e).__name__}: {str(e)[:200]}')
+                add(['nested-raises', type(e).__name__, f'nest={len(nest)}', mode], f'nested exec ({mode}) at {nest} raised {type(e).__name__}: {str(e)[:200]}')
                 continue
             obs2 = [(ident(nd), ev) for nd, ev in log2]
             if obs2 != base_obs or ident(result2) != ident(root) or stacks2:
                 i = next((j for j in range(min(len(obs2), len(base_obs))) if obs2[j] != base_obs[j]), None)
                 where = base_obs[i][0][0] if i is not None else 'length/result'
-                add(['nested-disturbs-outer', f'nest={len(nest)}', where], f'nested exec at positions {nest}: outer observation #{i} changed')
+                add(['nested-disturbs-outer', f'nest={len(nest)}', mode, where], f'nested exec ({mode}) at positions {nest}: outer observation #{i} changed')
             for t, r in nested:
                 if t != r:
                     add(['nested-result', t[0]], f'nested exec on {t} returned {r}')
